@@ -99,6 +99,19 @@ CHECKS = {
              "composition per-opcode-slices => dumps == first pickle uses the telescoping lemma (Lean). Known finding: non-seekable input "
              "streams are drained. Refutations are replayed by replay/parse_diff.py.",
         ref="§C06"),
+    "C15": dict(
+        text="Proof: the real ConstantOpcode.new, every validate / encode / encode_opcode / encode_length / encode_body and raw_unicode_escape "
+             "are symbolically executed in place under lemma programs: roundtrip(obj) = ConstantOpcode.new(obj) then encode(), per kind of obj "
+             "(all ints, all bools, floats, all strs, all bytes), create_unicode(text) = what `fickling --create` builds, and enc_<Class>(arg) for "
+             "every opcode class with an argument of the type its pickletools descriptor reads. Postcondition (S7, the reader's side): the bytes "
+             "start with the class's opcode byte, the reader consumes exactly these bytes, and reads back the same value of the same kind — or "
+             "the path raises one of the refusal exceptions. Priority order of validators comes from the live class table.",
+        note="Trusted: S7 (written from pickletools' descriptors); little-endian struct codecs, utf-8 / latin-1 / raw-unicode-escape / decimal "
+             "text as uninterpreted functions with inverse laws L1-L5 (ground instances); pickle's protocol-0 escape chain followed by "
+             "raw-unicode-escape decodes back (L5). Bounded companion (labelled bounded, not proof): nested lists/dicts, insert_python framing, "
+             "the CLI, GLOBAL/INST via replay/const_diff.py. Known findings: String, ShortBinString/BinString, Long1/Long4 encoders (direct "
+             "construction only).",
+        ref="§C15"),
 }
 NA_REASON = "check not built yet (work in progress; see DESIGN.md)"
 
